@@ -115,7 +115,7 @@ def drive(ctx: Ctx, strategy, body: Callable[[Any], None], total: int, chunk: in
 	done = 0
 	k = 0
 	# the time budget is a safety net, not a verdict: on a loaded machine every shard still completes a floor of cases
-	floor = int(ctx.budget.get('min_cases', max(1, total // 6)))
+	floor = int(ctx.budget.get('min_cases', max(2, total // 4)))  # >= 2: the first example of a Hypothesis run is the minimal (trivial) one
 	cases_run = [0]
 	# chunked on purpose: measured on C14, one long Hypothesis run per shard yields 37% duplicate programs (mutation of earlier examples that only
 	# touches unused draws), short runs with derived seeds 19% (mostly the minimal example that opens every run)
